@@ -14,14 +14,18 @@ Full statement (for all protocol grammars `G`, start nodes, and histories `h`):
 (a)–(c) are proved for the *verified forecaster* `nexts`/`complete` under two explicit, machine-checkable
 hypotheses (no left recursion — certificate `rankOk`; every rule productive — certificate
 `productiveB`); both certificates are evaluated by the driver for every grammar of every run.
-What the code computes (`codeNexts`: prefix parse + `ContinuingNodeVisitor`) is modelled in
-`Model/Forecast.lean`; it is *not* equal to `nexts`: `C19_code_offers_non_continuation` proves the
-counterexample (replayed on the implementation by the check), `C19_fixed_visitor_on_witness` shows the
-repaired visitor agrees on it.  The general equality `codeNexts (fixed) = nexts` is not proved: for
-that part the per-run correspondence (implementation = `codeNexts`, and implementation = `nexts` on
-every enumerated history) is the tie.
+(d) is proved for `sliceG`, the line-by-line model of the current `slice_parties` / `PacketTruncator`
+(`C19_slice_commutes`, `C19_slice_forecast`; hypothesis `sliceCert`, evaluated by the driver for every slice).
+What the code computes for the forecast (`codeNexts`: prefix parse + `ContinuingNodeVisitor`) is modelled in
+`Model/Forecast.lean`; `codeNexts = nexts` is proved for the empty history (`C19_code_forecast_partial`:
+the exploring visitor computes the FIRST set), and is NOT proved for non-empty histories (`CodeForecastFull`
+states it): for that part the per-run correspondence (implementation = `codeNexts`, and implementation =
+`nexts` on every enumerated history) is the tie.  The model follows the code as repaired by ebdb490d,
+8757f904, fc0f6663 (forecaster), ed4e9a62, e74d4443 (slicing), b48dd899 (parser bound of `{n,}`).
 -/
 import Proofs.Forecast
+import Proofs.ForecastSlice
+import Proofs.ForecastWalk
 namespace FV
 namespace Fc
 
@@ -335,7 +339,111 @@ theorem C19_code_complete_iff (G : Grammar) (rank : String → Nat) (F : Nat) (s
     codeComplete G F start h = true ↔ LangMsg G start h :=
   C19_complete_iff G rank F start hL h
 
-/-! ## (d) slicing -/
+/-! ## the model of the code = the continuations, for the empty history
+
+`codeNexts … []` is the exploring walk of `ContinuingNodeVisitor` from the start symbol (`current_tree[-1] is
+None` everywhere: `walkNew…`).  It computes the FIRST set.  `walkCert` (evaluated by the driver): in every
+rule the children of a concatenation each derive some interaction, repetition bounds are consistent and
+`max > 0`.  For a non-empty history `codeNexts` walks the partial derivations of the history (`positions`, the
+specification of the prefix parse) - the equality `codeNexts = nexts` is NOT proved there
+(`C19_code_forecast_partial` names the gap); on those histories the tie is the per-run differential
+implementation = `codeNexts` = `nexts`. -/
+
+/-- **the exploring visitor offers exactly the messages that can start an interaction** (and reports
+    `continue_exploring` exactly for nodes that derive the empty interaction) -/
+theorem C19_code_walk_first (G : Grammar) (rank : String → Nat) (F cap : Nat) (n : Node)
+    (hL : NoLeftRec G rank F) (hP : Productive G) (hW : walkCert G = true) (hn : walkOk G n = true) :
+    (∀ m, m ∈ (walkNewWith (walkNewTab G cap F) cap n).1 ↔ ∃ w, GM G n (m :: w)) ∧
+    ((walkNewWith (walkNewTab G cap F) cap n).2 = true ↔ GM G n []) :=
+  walkNewWith_ok G hP (walkNewTab G cap F) cap n
+    (fun name _ => walkNewTab_ok_all hL hP (walkCert_sound hW) cap name) hn
+
+/-- the forecast of the model of the code for the empty history is the set of continuations -/
+theorem C19_code_forecast_initial (G : Grammar) (rank : String → Nat) (F cap : Nat) (start : Node)
+    (hL : NoLeftRec G rank F) (hP : Productive G) (hW : walkCert G = true) (hn : walkOk G start = true)
+    (m : Msg) :
+    m ∈ codeNexts G cap F start [] ↔ Cont G start [] m := by
+  unfold codeNexts dedupM Cont
+  simp only [List.mem_eraseDups, List.nil_append]
+  exact (C19_code_walk_first G rank F cap start hL hP hW hn).1 m
+
+/-- hence, for the empty history, the model of the code agrees with the verified forecaster -/
+theorem C19_code_forecast_partial (G : Grammar) (rank : String → Nat) (F cap : Nat) (start : Node)
+    (hL : NoLeftRec G rank F) (hP : Productive G) (hW : walkCert G = true) (hn : walkOk G start = true)
+    (m : Msg) :
+    m ∈ codeNexts G cap F start [] ↔ m ∈ nexts G F start [] := by
+  rw [C19_code_forecast_initial G rank F cap start hL hP hW hn m,
+    C19_nexts_eq_cont G rank F start hL hP [] m]
+
+/-- full statement of which `C19_code_forecast_partial` is the case `h = []`: not proved for `h ≠ []` (it needs
+    "`positions` = the partial derivations of `h`" and "the walk along a position = the derivative").  Grammars
+    with an open-ended repetition are left out: there the visitor implements the repetition limit
+    (`C19_open_bound_is_cap`, open finding F43). -/
+def CodeForecastFull : Prop :=
+  ∀ (G : Grammar) (rank : String → Nat) (F cap : Nat) (start : Node),
+    NoLeftRec G rank F → Productive G → walkCert G = true → walkOk G start = true →
+    (capG cap G).rules = G.rules →
+    ∀ (h : List Msg) (m : Msg), PrefixLang G start h →
+      (m ∈ codeNexts G cap ((h.length + 2) * (G.rules.length + 1)) start h ↔ Cont G start h m)
+
+-- the hypotheses hold on the right-recursive example
+example : walkCert exRec = true := by decide
+example : walkOk exRec (.nt "<start>" none none) = true := by decide
+example : codeNexts exRec 20 2 (.nt "<start>" none none) [] = [mA, mQ] := by decide
+
+/-! ## (d) slicing: the sliced grammar describes the visible parts of the interactions
+
+`sliceG` models `slice_parties` / `PacketTruncator` line by line (tied to the real function rule by rule, node
+ids included, on every run).  `sliceCert G` (evaluated by the driver for every sliced grammar): rule names are
+distinct, every rule body is well-formed (alternatives non-empty, `min ≤ max`), no message type is also
+unfolded as a nonterminal of the protocol level.  The start symbol must survive the slicing
+(`(sliceG cfg G).rule name ≠ none`; otherwise every interaction is invisible - `C19_slice_deleted_invisible`). -/
+
+/-- **slicing commutes with projection**: the interactions of the sliced grammar are exactly the parts of
+    the interactions of `G` that are visible to the kept parties -/
+theorem C19_slice_commutes (cfg : SliceCfg) (G : Grammar) (hc : sliceCert G = true) (name : String)
+    (r : Option String) (hs : (sliceG cfg G).rule name ≠ none) (w : List Msg) :
+    LangMsg (sliceG cfg G) (.nt name none r) w ↔
+      ∃ w', LangMsg G (.nt name none r) w' ∧ project cfg w' = w :=
+  (sliceG_spec (cfg := cfg) hc).sem name r w hs
+
+/-- a nonterminal that `slice_parties` deletes has invisible interactions only -/
+theorem C19_slice_deleted_invisible (cfg : SliceCfg) (G : Grammar) (hc : sliceCert G = true) (name : String)
+    (r : Option String) (h1 : G.rule name ≠ none) (h2 : (sliceG cfg G).rule name = none)
+    (w' : List Msg) (hw : LangMsg G (.nt name none r) w') : project cfg w' = [] :=
+  (sliceG_spec (cfg := cfg) hc).del name r h1 h2 w' hw
+
+/-- the continuations in the sliced grammar are the continuations of the visible language -/
+theorem C19_slice_cont (cfg : SliceCfg) (G : Grammar) (hc : sliceCert G = true) (name : String)
+    (r : Option String) (hs : (sliceG cfg G).rule name ≠ none) (h : List Msg) (m : Msg) :
+    Cont (sliceG cfg G) (.nt name none r) h m ↔
+      ∃ w' w, LangMsg G (.nt name none r) w' ∧ project cfg w' = h ++ m :: w := by
+  unfold Cont
+  constructor
+  · rintro ⟨w, hw⟩
+    obtain ⟨w', hw', hp⟩ := (C19_slice_commutes cfg G hc name r hs _).1 hw
+    exact ⟨w', w, hw', hp⟩
+  · rintro ⟨w', w, hw', hp⟩
+    exact ⟨w, (C19_slice_commutes cfg G hc name r hs _).2 ⟨w', hw', hp⟩⟩
+
+/-- **forecasting on the sliced grammar = forecasting on `G` restricted to the kept parties' messages**:
+    the verified forecaster on `sliceG cfg G` offers `m` after `h` iff some interaction of `G` has a visible
+    part that continues `h` with `m`; `h` is complete iff it is the visible part of an interaction of `G`.
+    (`NoLeftRec` / `Productive` of the sliced grammar: the certificates `rankOk` / `productiveB` that the driver
+    evaluates for the sliced grammar.) -/
+theorem C19_slice_forecast (cfg : SliceCfg) (G : Grammar) (hc : sliceCert G = true) (name : String)
+    (r : Option String) (hs : (sliceG cfg G).rule name ≠ none) (rank : String → Nat) (F : Nat)
+    (hL : NoLeftRec (sliceG cfg G) rank F) (hP : Productive (sliceG cfg G)) (h : List Msg) :
+    (∀ m, m ∈ nexts (sliceG cfg G) F (.nt name none r) h ↔
+      ∃ w' w, LangMsg G (.nt name none r) w' ∧ project cfg w' = h ++ m :: w) ∧
+    (complete (sliceG cfg G) F (.nt name none r) h = true ↔
+      ∃ w', LangMsg G (.nt name none r) w' ∧ project cfg w' = h) := by
+  constructor
+  · intro m
+    rw [C19_nexts_eq_cont (sliceG cfg G) rank F _ hL hP h m]
+    exact C19_slice_cont cfg G hc name r hs h m
+  · rw [C19_complete_iff (sliceG cfg G) rank F _ hL h]
+    exact C19_slice_commutes cfg G hc name r hs h
 
 def sA0 : Msg := ⟨"A", some "B", "<m0>"⟩
 def sB1 : Msg := ⟨"B", some "C", "<m1>"⟩
@@ -354,6 +462,26 @@ theorem C19_slice_keeps_invisible_alternative :
     complete (sliceG ⟨["A"], false⟩ exSlice) 2 exStarStart [sA0] = true ∧
     nexts (sliceG ⟨["A"], false⟩ exSlice) 2 exStarStart [sA0] = [sA2] := by
   decide
+
+-- the hypotheses of `C19_slice_commutes` / `C19_slice_forecast` hold on the witness
+example : sliceCert exSlice = true := by decide
+example : (sliceG ⟨["A"], false⟩ exSlice).rule "<start>" ≠ none := by decide
+example : rankOk (sliceG ⟨["A"], false⟩ exSlice) (fun _ => 0) 2 = true := by decide
+example : productiveB (sliceG ⟨["A"], false⟩ exSlice) 2 = true := by decide
+
+/-- a spec with a helper rule that is invisible to `A`: two rounds (`<x>` is deleted in the first, the
+    reference to it in the second) -/
+def exSlice2 : Grammar :=
+  { rules := [("<start>", .cat "c1" [atom sA0, .nt "<x>" none none, .rep "s1" .star (.alt "a1" [atom sB1, atom sA2]) 0 none]),
+              ("<x>", .cat "c2" [atom sB1, atom sB1])] }
+example : sliceCert exSlice2 = true := by decide
+example : (sliceG ⟨["A"], false⟩ exSlice2).rule "<x>" = none ∧
+    (sliceG ⟨["A"], false⟩ exSlice2).rule "<start>" ≠ none ∧
+    (sliceG ⟨["A"], false⟩ exSlice2).rules.length = 1 ∧
+    nexts (sliceG ⟨["A"], false⟩ exSlice2) 2 exStarStart [sA0] = [sA2] ∧
+    complete (sliceG ⟨["A"], false⟩ exSlice2) 2 exStarStart [sA0, sA2, sA2] = true ∧
+    complete exSlice2 3 exStarStart [sA0, sB1, sB1, sA2, sB1, sA2] = true ∧
+    project ⟨["A"], false⟩ [sA0, sB1, sB1, sA2, sB1, sA2] = [sA0, sA2, sA2] := by decide
 
 /-- `<start> ::= (<C:A:m1> | <B:C:m1> | <A:B:m2>)` -/
 def exSliceEq : Grammar :=
